@@ -23,7 +23,7 @@ def run(tier):
     cfg = CFG[tier]
     res, rep = S.mc_replay(chk, "MCLdap4511", cfg["resp"], "responses", "", timeout=cfg["tmo"])
     chk.report(rep, "S->I replay of MCLdap4511 response encodings through the scripted server into the public API")
-    S.vacuity(chk, rep.get("counters", {}), ["resp:" + k for k in KINDS] + ["resp:non-minimal-encodings", "resp:with-referral", "resp:with-controls",
+    S.vacuity(chk, rep.get("counters", {}), ["resp:" + k for k in KINDS] + ["resp:non-minimal-encodings", "resp:search-with-reference-message", "resp:with-referral", "resp:with-controls",
                                                                          "resp-group:rc", "resp-group:strings", "resp-group:ctrls", "resp-group:cross",
                                                                          "resp-group:ids", "resp-group:special"])
     chk.exhaustive = True
